@@ -168,6 +168,7 @@ func (e *Variable) Assign(newVal reflect.Value, dataContext IDataContext, memory
 		err := dataContext.Add(e.Name, pkg.ValueToInterface(newVal))
 		if err == nil {
 			dataContext.IncrementVariableChangeCount()
+			memory.ResetVariable(e)
 		}
 
 		return err
